@@ -264,4 +264,21 @@ CHECKS["C10"] = {
     "note": TB + "; scipy RK45 and expm",
 }
 
+CHECKS["C11"] = {
+    "technique": "runtime monitoring: recorded call histories on one "
+                 "objective object (incl. the real SurrogateOptimizer run) "
+                 "checked offline against a small sequential model and "
+                 "against freshly constructed objectives; ghost reads of the "
+                 "collected training data",
+    "text": "Random interleavings of evaluate / initialize / set_model / "
+            "set_raw / get_differentials on one FigureOfMerit(LE) object and "
+            "the history produced by the real surrogate optimizer are "
+            "recorded with the size and checksum of the collected data after "
+            "every call; each evaluate must equal (bitwise) what a fresh "
+            "objective returns in that mode and the independently recomputed "
+            "mean / log-exp mean of per-case J; the collection may only grow "
+            "in real-system evaluates. Held on the histories recorded.",
+    "note": TB,
+}
+
 NOT_APPLICABLE = {}
